@@ -77,8 +77,14 @@ def match_tag(token, regex=match_tag_prefix_and_name):
     token = token[end:]
 
     attrs = d['attrs'] = []
+    end = 0
     for m in match_single_attribute.finditer(token):
         attr = groupdict(m, token)
+        if m.start() > end:
+            # text between attributes that is not part of any
+            # attribute is kept with the whitespace
+            attr['space'] = token[end:m.start()] + attr['space']
+        end = m.end()
         alt_value = attr.pop('alt_value', None)
         if alt_value is not None:
             attr['value'] = alt_value
@@ -90,6 +96,9 @@ def match_tag(token, regex=match_tag_prefix_and_name):
             attr['eq'] = ''
         attrs.append(attr)
         d['suffix'] = token[m.end():]
+
+    if d['suffix'] is None:
+        d['suffix'] = token
 
     return d
 
